@@ -117,7 +117,9 @@ def wrapper_table_check(ctx, rule, only=None):
             try:
                 res = resolve_wrapper(repo, cls, mname)
             except AnalysisError as ex:
-                r.undecide(rule, fn.qual, "wiring", str(ex), fn)
+                # an unrecognised wrapper form is not an alarm: the interpreted rule (C06.RK / C01.R3) decides the wrapper's
+                # behaviour on the enumerated transcripts; only the all-inputs strengthening is not claimed for it
+                r.note(f"{rule}: {fn.qual} has a form the wiring resolver does not recognise ({ex}); decided by interpretation only")
                 continue
             genomic = src_sys if src_sys in ("sequence", "chunk_relative") else dst_sys
             rel = dst_sys if src_sys in ("sequence", "chunk_relative") else src_sys
@@ -283,7 +285,7 @@ def _exon_layouts(nexons):
                 yield lay
 
 
-def _tx_case(repo, it, S, F, exons, strand_name, cs, ce):
+def _tx_case(repo, it, S, F, exons, strand_name, cs, ce, start_frame=0):
     out = []
     n = 0
     q = lambda m: repo.fn(f"{TX}.{m}")  # noqa: E731
@@ -294,8 +296,20 @@ def _tx_case(repo, it, S, F, exons, strand_name, cs, ce):
         a, b = max(s, cs), min(e, ce)
         if a < b:
             cds_blocks.append((a, b))
-    frames = [F["ZERO"]] * len(cds_blocks)
-    desc = f"exons={list(exons)} cds={cds_blocks} {strand_name}"
+    if start_frame == 0:
+        frames = [F["ZERO"]] * len(cds_blocks)
+        desc = f"exons={list(exons)} cds={cds_blocks} {strand_name}"
+    else:
+        # a 5'-incomplete CDS: one uninterrupted reading frame that starts with an offset (coordinates do not depend on it)
+        order = list(range(len(cds_blocks)))
+        if strand_name == "MINUS":
+            order.reverse()
+        fr, before = {}, -start_frame
+        for j, i in enumerate(order):
+            fr[i] = start_frame if j == 0 else before % 3
+            before += cds_blocks[i][1] - cds_blocks[i][0]
+        frames = [F[{0: "ZERO", 1: "ONE", 2: "TWO"}[fr[i]]] for i in range(len(cds_blocks))]
+        desc = f"exons={list(exons)} cds={cds_blocks} {strand_name} frames={[fr[i] for i in range(len(cds_blocks))]}"
     try:
         tx = mk_transcript(it, exons, S[strand_name], cds_blocks, frames)
     except Raised as ex:
@@ -371,6 +385,8 @@ def rk_interpreted(ctx):
                     for ce1 in pos:
                         if ce1 >= cs:
                             specs.append((lay, sn, cs, ce1 + 1))
+                            if ce1 - cs >= 3 and (ctx.thorough or (cs + ce1) % 3 == 0):
+                                specs.append((lay, sn, cs, ce1 + 1, 1 + (cs + ce1) % 2))
     r.floor("C06.RK", "transcripts (layout x strand x CDS placement)", len(specs), 150)
 
     def work(spec):
